@@ -95,32 +95,35 @@ Example dist_example :
   let ovs := [((MSuffix, pat_2xx), [f64 0x3ff0000000000000%Z]);
               ((MPrefix, pat_http), [f64 0x4000000000000000%Z]);
               ((MSuffix, [120]), [f64 0x4008000000000000%Z])] in
-  run_case (cdist true true None http_2xx ovs) = odist true (Some [f64 0x4000000000000000%Z])
+  out_eqb (run_case (cdist true true None http_2xx ovs)) (odist true (Some [f64 0x4000000000000000%Z])) = true
   /\ spec_ok (cdist true true None http_2xx ovs) (run_case (cdist true true None http_2xx ovs)) = true
-  /\ run_case (cdist true true None http_2xx (firstn 1 ovs)) = odist true (Some [f64 0x3ff0000000000000%Z])
-  /\ run_case (cdist true true None pat_2xx (firstn 1 ovs)) = odist true (Some [f64 0x3ff0000000000000%Z])
-  /\ run_case (cdist true true None pat_http (firstn 1 ovs)) = odist false None.
+  /\ out_eqb (run_case (cdist true true None http_2xx (firstn 1 ovs))) (odist true (Some [f64 0x3ff0000000000000%Z])) = true
+  /\ out_eqb (run_case (cdist true true None pat_2xx (firstn 1 ovs))) (odist true (Some [f64 0x3ff0000000000000%Z])) = true
+  /\ out_eqb (run_case (cdist true true None pat_http (firstn 1 ovs))) (odist false None) = true.
 Proof. vm_compute. auto 10. Qed.
 
 (* the code as found (first-character rule on suffixes) violates the property *)
 Theorem suffix_refuted_before_fix :
-  exists c : case, (match c with CDist _ fixed _ _ _ _ => fixed = false | _ => False end)
-                   /\ spec_ok c (run_case c) = false.
+  exists c : gcase ZO, (match c with CDist _ fixed _ _ _ _ => fixed = false | _ => False end)
+                       /\ gspec_ok ZO c (grun_case ZO c) = false.
 Proof.
-  exists (cdist false true None http_2xx [((MSuffix, pat_2xx), [f64 0x3ff0000000000000%Z])]).
+  exists (CDist ZO false true None http_2xx [((MSuffix, pat_2xx), [Some 1%Z])]).
   split; [reflexivity|]. vm_compute. reflexivity.
 Qed.
 
-Example roll_example :
-  let one := f64 0x3ff0000000000000%Z in let two := f64 0x4000000000000000%Z in let three := f64 0x4008000000000000%Z in
-  let c := croll 3 10 [radd 5 one; radd 14 two; radd 15 three; rsnap 15; rsnap 34; rsnap 35; rsnap 45; radd 100 one; rsnap 100] in
-  out_eqb (run_case c)
-    (oroll [oadd 1; oadd 2; oadd 3;
-            osnap 3 (f64 0x4018000000000000%Z) 3 one three [one; two; three];
-            osnap 3 (f64 0x4018000000000000%Z) 3 one three [one; f64 0x3fffff9d0d48896f%Z; three];
-            osnap 3 (f64 0x4018000000000000%Z) 1 three three [three; f64 0x40080089f641de8f%Z];
-            osnap 3 (f64 0x4018000000000000%Z) 0 one one [f64 0%Z];
-            oadd 4;
-            osnap 4 (f64 0x401c000000000000%Z) 1 one one [one]]) = true
-  /\ spec_ok c (run_case c) = true.
-Proof. vm_compute. auto. Qed.
+Definition one := f64 0x3ff0000000000000%Z.
+Definition two := f64 0x4000000000000000%Z.
+Definition three := f64 0x4008000000000000%Z.
+Definition roll_c : case :=
+  croll 3 10 [radd 5 one; radd 14 two; radd 15 three; rsnap 15; rsnap 34; rsnap 35; rsnap 45; radd 100 one; rsnap 100].
+Definition roll_o : out :=
+  oroll [oadd 1; oadd 2; oadd 3;
+         osnap 3 (f64 0x4018000000000000%Z) 3 one three [one; two; three];
+         osnap 3 (f64 0x4018000000000000%Z) 3 one three [one; f64 0x3fffff9d0d48896f%Z; three];
+         osnap 3 (f64 0x4018000000000000%Z) 1 three three [three; f64 0x40080089f641de8f%Z];
+         osnap 3 (f64 0x4018000000000000%Z) 0 one one [f64 0%Z];
+         oadd 4;
+         osnap 4 (f64 0x401c000000000000%Z) 1 one one [one]].
+
+Example roll_example : out_eqb (run_case roll_c) roll_o = true /\ spec_ok roll_c roll_o = true.
+Proof. split; vm_compute; reflexivity. Qed.
